@@ -131,7 +131,7 @@ def obligations(tier, kf):
     excl = ''.join(sorted(set(unrep['mid'])))
     kf = dict(kf, excl_archive=bool(unrep['archive']))
     obs = []
-    T = {1: 120, 2: 300, 3: 1500}
+    T = {1: 400, 2: 900, 3: 3000}
     for shape in (0, 1, 2):
         for rooti in (0, 1):
             if tier == 'quick' and (shape, rooti) not in ((0, 0), (1, 1), (2, 0)):
@@ -156,7 +156,7 @@ def obligations(tier, kf):
                         for m in MUTANTS.get(fn, []):
                             obs.append(ob.mutant(m))
     # a directory whose name starts with the sentinel's own name
-    dr = Ob('mx_dir_rule', dict(kf, N=5, shape=0, rooti=0, excl=excl, cprefix='.dir'), 600,
+    dr = Ob('mx_dir_rule', dict(kf, N=1 if tier == 'quick' else 2, shape=0, rooti=0, excl=excl, cprefix='.dir'), 900,
             desc='mx_dir_rule, component .dir<c>')
     obs += [dr, dr.mutant('dir_rule_subst')]
     if tier == 'quick':
@@ -182,7 +182,7 @@ def classify(ob, cex):
             return 'C04-F9'
     if ob.fn == 'mc_call_arg' and ',' in c:
         return 'C04-F19'
-    if ob.fn == 'mx_dir_rule' and ('  ' in c or c.startswith('.dir ')):
+    if ob.fn == 'mx_dir_rule' and ('  ' in c or (ob.params.get('cprefix', '') + c).startswith('.dir ')):
         return 'C04-F18'
     if ob.fn == 'mx_dir_rule' and "'" in c:
         return 'C04-F11'
